@@ -143,7 +143,8 @@ def allUniv {V : Type} (D : VarId → List V) : List VarId → List (Bnd V)
 
 /-- The specification of `and_(d?, for_all(us₁, c₁), for_all(us₂, c₂), …)` (conjuncts in any order):
     the assignments of the free variables for which `d` holds and every `cᵢ` holds under EVERY
-    assignment of its universal variables. -/
+    assignment of its universal variables (for SOME element of every flatten node inside `cᵢ`: the
+    element is not among the bindings a for_all keeps). -/
 def specRowsStages [Inhabited V] (W : World V) (D : VarId → List V) (vars : List VarId)
     (sel : List (Term V)) (outer : Option (SCond V)) (fas : List (List VarId × SCond V)) : List (List V) :=
   let free := (match outer with | some c => c.free | none => []) ++ Terms.free sel ++
@@ -151,7 +152,9 @@ def specRowsStages [Inhabited V] (W : World V) (D : VarId → List V) (vars : Li
   let bs := allBnds D (vars.filter free.contains)
   let ok := bs.filter fun β =>
     (match outer with | some d => sdenote W (asgOf β) d | none => true) &&
-    fas.all fun p => (allUniv D p.1).all fun ub => sdenote W (asgOf (ub ++ β)) p.2
+    fas.all fun p => (allUniv D p.1).all fun ub =>
+      -- a flatten node inside the for_all's condition is existential: some element satisfies it
+      (extendFlats W p.2.flats (ub ++ β)).any fun β' => sdenote W (asgOf β') p.2
   ok.map fun β => termsVal W (asgOf β) sel
 
 end Eql
